@@ -7,24 +7,24 @@ props = [json.loads(l) for l in open(os.path.join(HERE, "properties.jsonl"))]
 TECH = "contract-based deductive verification: sidecar contracts on the real functions, VCs generated from /repo's ast by the pyvc executor, discharged by z3 (cvc5 on unknown)"
 CLAIMED = {
  "C01": dict(text="accept=>well-formed and raises-only clauses of the three validators proved for all byte strings of all lengths (CRC/sum loops by invariant, CRC step by a bit-vector lemma against the bitwise definition)",
-             note="trusted: executor pyvc, z3/cvc5, CPython semantics of the subset (differentially tested). Delivery clause of the receive callbacks is proved in the protocol units once built; until then it is listed under undecided_clauses in the evidence.",
+             note="trusted: executor pyvc, z3/cvc5, CPython semantics of the subset (differentially tested). Also: every command class built by its real constructor carries a validator that accepts only answers to the operation its arguments denote (binding units), and the receive callbacks deliver only data that validator accepted (callback segments of the transport).",
              ref="4/C01"),
  "C02": dict(text="well-formed=>accept (and well-formed frames never raise) proved for all payloads/lengths for RTU, TCP and AA55 validators",
-             note="same trusted base as C01", ref="4/C02"),
+             note="same trusted base as C01; the binding units state the converse per command class (a well-formed answer to this very request is accepted), the response-construction units that the payload is handed on unchanged", ref="4/C02"),
  "C03": dict(text="post-conditions 'decodes back to the arguments' proved for the 4 Modbus encoders, 9 command constructors, AA55 checksum, _next_tx step (inductive invariant for arbitrarily long histories) and request_bytes",
-             note="same trusted base as C01; hex formatting modelled on 0 <= x < 16**W only (out-of-range forks: negative -> ValueError as in CPython, too wide -> undecided)", ref="4/C03"),
+             note="same trusted base as C01; hex formatting modelled on 0 <= x < 16**W only (out-of-range forks: negative -> ValueError as in CPython, too wide -> undecided); 'changes with every transmission' also in the send_request segments of the transport: every transmission sends the result of a request_bytes() call made for it (T4, T5)", ref="4/C03"),
 }
 CLAIMED.update({
  "C11": dict(text="for every row of every sensor/setting table of ET/DT/ES: read() on any payload of any length and any block start raises nothing but ValueError (symbolic execution of the real decoders); decode_day_of_week/decode_months total by exhaustive native evaluation of their whole domains",
-             note="_map_response / read_settings_data lifting is proved in the orchestration units once built; assumptions A4 (datetime/struct), T1-T3", ref="4/C11"),
+             note="lifting: _map_response's own contract (every id present, undecodable -> None; loop by invariant) and the bulk settings read of ET/ES (every setting id reported, only a transport failure may end it); assumptions A4 (datetime/struct), T1-T3", ref="4/C11"),
  "C12": dict(text="for every table row: byte position = documented address mapping, every read stays inside the row's own registers, value = reference decoder of exactly those bytes, for all payloads, lengths and block starts",
              note="floats in decoders are uninterpreted functions (A5); reference decoders are sidecar text written from the class docstrings", ref="4/C12"),
  "C13": dict(text="relational post-conditions between the real rows over one symbolic response: labels = lookup(code), bitmaps = set bits, sums/products/formulas; 4 EnumBitmap22 rows are a known finding",
              note="A5; refutations resting on uninterpreted operators are confirmed by native search before being reported", ref="4/C13"),
  "C16": dict(text="per row of the ET/DT sensor tables: read_value on exactly ceil(size_/2) registers stays inside them and equals the bulk read (same term); NotImplementedError rows are a known finding",
-             note="cache invariant of _sensors_map is part of the orchestration units (not yet built): listed as undecided clause", ref="4/C16"),
+             note="plus API-level units over the register-file model: read_sensor(id) against read_runtime_data()[id] for every listed id, and histories in which the capabilities change between a single and a bulk read (lookup uses the definition the bulk read reports)", ref="4/C16"),
  "C20": dict(text="frame conditions on every table row: decoding writes to no pre-existing object and never returns a shared definition (executor write log); eco/schedule rows are a known finding",
-             note="F3/F4 (module globals, inverter methods) are part of the orchestration units (not yet built)", ref="4/C20"),
+             note="F3/F4: every read-only API call modifies only state owned by the object (write log against the objects reachable from module globals and class attributes); the transport callbacks run with the process-wide Modbus/TCP counter havocked (what they do must not depend on it)", ref="4/C20"),
 })
 CLAIMED.update({
  "C14": dict(text="call-site precondition of Inverter._map_response on every path of the read_runtime_data exploration (all invariant states x refusal sets): the read footprint of every row (from symbolic execution of its real read) lies inside the fetched window; ET MPPT apparent_power2/3 are a known finding",
@@ -41,7 +41,7 @@ CLAIMED.update({
              note="E1/E2 assumptions (inverter model, ES AA55 command semantics)", ref="4/C19"),
 })
 SM = "transport state machine verified as a monitor: every callback and every await-free stretch of send_request/execute/close is a segment executed from an arbitrary state satisfying the object invariant (I1 binding, I2 pending=>timeout armed, I4 retry within budget, I5 fragment state, I6 open transports); awaits havoc what callbacks may change and re-assume the invariant; recursion by contract. "
-SMNOTE = "trusted: ghost model of asyncio (pyvc/aio_env.py, T4), atomic segments (T5), A1 (data only after a transmission), single requesting task for counting; real-time spacing and OS sockets are not decided"
+SMNOTE = "trusted: ghost model of asyncio (pyvc/aio_env.py, T4), atomic segments (T5), A1 (data only after a transmission), single requesting task for counting (several callers: lock discipline only); real-time spacing and OS sockets are not decided by the proofs. thorough adds a BOUNDED stand-in that is not counted as proved: all fault scripts of length retries+1 (retries 0..4, 10-letter alphabet, 444 440 histories of three requests) on the real classes over a virtual-clock event loop, judged against the statements, which also covers the real-time clauses"
 CLAIMED.update({
  "C04": dict(text=SM + "C04: transmissions per request <= retries - _retry + 1 on every exit, callbacks never transmit nor refill the budget, a pending future always has a timeout armed, timeouts use self.timeout / the literal 5", note=SMNOTE, ref="4/C04"),
  "C05": dict(text=SM + "C05: _retry == 0 on every exit of send_request (and reset exactly when the answer is delivered); connect/discover/search_inverters and the inverter constructors hand the configured (timeout, retries) to every protocol object that transmits (symbolic timeout/retries)", note=SMNOTE + "; stale-timer ordering not decided", ref="4/C05"),
